@@ -29,6 +29,7 @@ type cEnv struct {
 	useChild bool
 	relay    *faultRelay
 	cli      *h.Client
+	status   *statusProbe
 	be       *h.TCPBackend
 	ident    string
 	runID    string
@@ -180,6 +181,7 @@ transport.heartbeatTimeout = %d
 		return
 	}
 	defer e.cli.Close()
+	e.status = &statusProbe{cli: e.cli, names: e.names}
 	if !e.awaitRecovery("start", t0) {
 		return
 	}
@@ -269,10 +271,8 @@ func (e *cEnv) relogged() bool {
 
 // healthy: every proxy "running" at the client, registered at the server, and the tcp tunnels carry an echo.
 func (e *cEnv) healthy() (bool, string) {
-	for _, n := range e.names {
-		if ph := e.cli.ProxyPhase(n); ph != "running" {
-			return false, fmt.Sprintf("client: %s is %q", n, ph)
-		}
+	if why := e.status.allRunning(); why != "" {
+		return false, why
 	}
 	if e.srv != nil {
 		have := map[string]bool{}
